@@ -39,13 +39,29 @@ def run_impl(case):
         leq = lambda a, b: m[a][b]   # noqa
         init = list(case['init'])
         cd = PL.true_children(m, init) if case.get('cd') and case['cache'] else None
-        p = POSet(PL.as_iterable(init, case.get('ctor')) if cd is None else init, leq,
-                  use_cache=case['cache'], children_dict=cd)
+        sib = ''
+        if case.get('alias') and cd is not None:
+            # aliasing probe: ONE dictionary object, taken from another poset's public children_dict
+            # property (its values are frozensets), is handed to three constructors; the history
+            # runs on the first, a sibling exists before it, another is built after it
+            d = POSet(init, leq).children_dict
+            p = POSet(init, leq, use_cache=True, children_dict=d)
+            sib1 = POSet(init, leq, use_cache=True, children_dict=d)
+        else:
+            p = POSet(PL.as_iterable(init, case.get('ctor')) if cd is None else init, leq,
+                      use_cache=case['cache'], children_dict=cd)
         outs = [_call(p, o, leq, POSet, case) for o in case['ops']]
         raw = PL.raw_caches_term(p)          # read-only peek, before the final queries fill everything
+        if case.get('alias') and cd is not None:
+            sib2 = POSet(init, leq, use_cache=True, children_dict=d)
+            for k in list(d):                 # the caller goes on using (and changing) its dictionary
+                d[k] = frozenset(range(len(init)))
+            d[len(init) + 5] = frozenset({0})
+            sib = (PL.outs_term(PL.run_final(sib1, leq, POSet))[1:-1] + '; ' +
+                   PL.outs_term(PL.run_final(sib2, leq, POSet))[1:-1])
         # kept as compact strings (Coq terms): thousands of small lists per case are
         # too heavy for the volumes of the thorough tier
-        return [PL.xouts_term(outs), raw, PL.outs_term(PL.run_final(p, leq, POSet))]
+        return [PL.xouts_term(outs), raw, PL.outs_term(PL.run_final(p, leq, POSet)), '[' + sib + ']']
     r = guarded(go, timeout_s=20)
     return list(r)
 
@@ -85,15 +101,16 @@ def _to_coq_poset(case, out):
     if case.get('cd'):
         cd = sorted(PL.true_children(m, case['init']).items())
     if out[0] == 'ok':
-        steps, raw, fin = out[1]
+        steps, raw, fin, sib = out[1]
     else:
-        steps, raw, fin = PL.xouts_term([['x', PL.ERR_KINDS.get(out[1], 11)]]), EMPTY_RAW, '[]'
+        steps, raw, fin, sib = PL.xouts_term([['x', PL.ERR_KINDS.get(out[1], 11)]]), EMPTY_RAW, '[]', '[]'
     # the model's caching discipline is exact as long as CPython lists sets of indexes in
     # ascending order, i.e. for indexes < 8
     exact = len(m) <= 8
-    return 'Build_c09_case %s %s %s %s %s %s %s %s %s' % (
+    n_sib = 2 if (case.get('alias') and case.get('cd') and case['cache']) else 0
+    return 'Build_c09_case %s %s %s %s %s %s %s %s %s %d %s' % (
         coq(m), coq(list(case['init'])), PL.b(case['cache']), PL.cache_term(cd),
-        _xops_term(case), steps, raw, PL.b(exact), fin)
+        _xops_term(case), steps, raw, PL.b(exact), fin, n_sib, sib)
 
 
 # ------------------------------------------------------------------ generation
@@ -117,6 +134,8 @@ def random_case(rng, max_ops, kmax=8):
             'ctor': rng.choice(['list', 'list', 'tuple', 'gen', 'map', 'iter'])}
     if rng.random() < 0.3:
         add_eq2(rng, case)
+    if cd and len(init) > 0:
+        case['alias'] = rng.random() < 0.6      # siblings built from one shared children_dict object
     return case
 
 
@@ -332,7 +351,7 @@ def stats(case):
         return d
     ops = case['ops']
     return {'class': 'POSet', 'elements_given_as': case.get('ctor', 'list'), 'order': case.get('kind', ''), 'carriers': len(case['matrix']), 'init': len(case['init']),
-            'cache': case['cache'], 'children_dict': bool(case.get('cd')),
+            'cache': case['cache'], 'children_dict': bool(case.get('cd')), 'shared_dict_siblings': bool(case.get('alias')),
             'ops': min(len(ops), 31) // 4 * 4,
             'mutations': sum(1 for o in ops if PL.is_mutation(o)),
             'has_nofill_add': any(o[0] == 'add' and not o[2] for o in ops),
